@@ -63,11 +63,11 @@ def sizes(tier):
 # ----------------------------------------------------------------------------------------------
 # plan generation (the only place that consumes the PRNG)
 # ----------------------------------------------------------------------------------------------
-def gen_config(rng):
-    n_wfs = rng.weighted([(1, 1), (2, 4), (3, 4), (4, 2)])
+def gen_config(rng, big=False):
+    n_wfs = rng.weighted([(1, 1), (2, 4), (3, 4), (4, 2)] + ([(5, 2), (6, 1)] if big else []))
     tel = round(rng.uniform(1.0, 10.0), 3)
     share_mask = rng.chance(0.3)
-    base_nx = rng.randint(2, 5)
+    base_nx = rng.randint(2, 7 if big else 5)
     masks, diams = [], []
     for w in range(n_wfs):
         nx = base_nx if (share_mask or rng.chance(0.6)) else rng.randint(2, 5)
@@ -81,7 +81,7 @@ def gen_config(rng):
                 m[rng.randrange(ny)][rng.randrange(nx)] = 1
         masks.append(m)
         diams.append(round(tel / len(m[0]), 6) if rng.chance(0.7) else round(rng.uniform(0.1, 1.5), 4))
-    n_layers = rng.weighted([(1, 2), (2, 3), (3, 3)])
+    n_layers = rng.weighted([(1, 2), (2, 3), (3, 3)] + ([(4, 2), (6, 1)] if big else []))
     alts = sorted(round(rng.choice([0.0, rng.uniform(0, 20000)]), 2) for _ in range(n_layers))
     top = max(alts) if alts else 0.0
     gs_alt = [0.0 if rng.chance(0.5) else round(rng.uniform(max(25000.0, 1.3 * top), 100000.0), 1) for _ in range(n_wfs)]
@@ -129,11 +129,12 @@ def gen_sched(rng):
 
 def gen_plan(rng, tier, index=0):
     n_obj = rng.weighted([(1, 5), (2, 3), (3, 1)])
-    objs = [gen_config(rng.sub("cfg", i)) for i in range(n_obj)]
+    big = tier == "thorough" and rng.chance(0.2)
+    objs = [gen_config(rng.sub("cfg", i), big) for i in range(n_obj)]
     r = rng.sub("hist")
     forked_run = r.chance(0.04)
     steps = []
-    n_steps = r.randint(3, 10)
+    n_steps = r.randint(3, 24 if big else 10)
     for s in range(n_steps):
         op = r.weighted([("build", 7), ("recon", 1.5), ("read", 1), ("new", 1)])
         o = r.randrange(n_obj)
@@ -193,16 +194,15 @@ def execute(plan, keep_log=False):
     refs, objs, last, built, hist = {}, {}, {}, {}, {}
 
     def reference(o):
-        """single-process result of a fresh object (computed under an identity-schedule kernel so that
-        even a tree that uses a pool for threads=1 never creates a real pool here)"""
+        """single-process result of a fresh object, built under the identity schedule (so that even a tree that uses a
+        pool for threads=1 never creates a real pool here)"""
         if o not in refs:
-            with simpool.Kernel(None, None) as k:
-                k.configure(None, "inproc")
-                try:
-                    m = make_object(sc, objs_cfg[o], 1).make_covariance_matrix()
-                    refs[o] = ("ok", _mbytes(m))
-                except Exception as e:
-                    refs[o] = ("raised", type(e).__name__)
+            kern.configure(None, "inproc")
+            try:
+                m = make_object(sc, objs_cfg[o], 1).make_covariance_matrix()
+                refs[o] = ("ok", _mbytes(m))
+            except Exception as e:
+                refs[o] = ("raised", type(e).__name__)
         return refs[o]
 
     def obj(o):
@@ -211,6 +211,20 @@ def execute(plan, keep_log=False):
             hist[o] = []
         return objs[o]
 
+    kern = simpool.Kernel(res, log)
+    kern.__enter__()
+    try:
+        _run_steps(plan, sc, res, log, kern, objs_cfg, n_obj, refs, objs, last, built, hist, reference, obj)
+    finally:
+        kern.__exit__(None, None, None)
+    res.digest = log.digest()
+    if keep_log:
+        res.events = log.events
+    return res
+
+
+def _run_steps(plan, sc, res, log, kern, objs_cfg, n_obj, refs, objs, last, built, hist, reference, obj):
+    import numpy
     for si, st in enumerate(plan["steps"]):
         o = st["obj"] % n_obj
         op = st["op"]
@@ -255,10 +269,12 @@ def execute(plan, keep_log=False):
         hist[o].append(k_threads)
         res.count("op.build")
         res.count("op.build.mp" if k_threads > 1 else "op.build.sp")
-        kern = simpool.Kernel(res, log)
         kern.configure(st.get("sched"), st.get("mode", "inproc"))
+        kern.maps = []
+        t_start = kern.now
+        unc0 = kern.uncontrolled
         outcome = None
-        with kern:
+        if True:
             try:
                 m = c.make_covariance_matrix()
                 outcome = ("ok", _mbytes(m), m)
@@ -266,9 +282,9 @@ def execute(plan, keep_log=False):
                 outcome = ("deadlock", str(e))
             except Exception as e:
                 outcome = ("raised", type(e).__name__, str(e))
-            res.sim_time += kern.now
-            if kern.uncontrolled:
-                res.count("uncontrolled_concurrency", kern.uncontrolled)
+            res.sim_time += kern.now - t_start
+            if kern.uncontrolled > unc0:
+                res.count("uncontrolled_concurrency", kern.uncontrolled - unc0)
             for mp_ in kern.maps:
                 comp = mp_.get("completion")
                 comp = list(comp) if comp is not None else []
@@ -313,10 +329,6 @@ def execute(plan, keep_log=False):
         last[o] = outcome[2]
         if len(hist[o]) >= 2 and any(x == 1 for x in hist[o]) and any(x > 1 for x in hist[o]):
             res.sig("hist", _hist_sig(hist[o]))
-    res.digest = log.digest()
-    if keep_log:
-        res.events = log.events
-    return res
 
 
 # ----------------------------------------------------------------------------------------------
